@@ -20,6 +20,7 @@ from .common import clause, Fail, Skip, variables_of
 from .. import REPO
 from ..repo import import_qubovert, build_canneal
 from ._c17_driver import run_driver
+from .c11 import fresh_qubovert, register_build_cleanup
 from .c11 import TYPES, SPIN_FN, MATRIX, FNS, SCHEDULE_KWS, _special_models, _random_models, _vars_for, _kw
 
 _DRIVER = os.path.join(os.path.dirname(os.path.abspath(__file__)), "_c17_driver.py")
@@ -121,10 +122,11 @@ def _spec_key(c):
 
 
 def _check_batch(case):
-    import_qubovert(fresh_c=True)          # (cached) the unsanitised fresh build is not what is driven here
+    fresh_qubovert()                       # (cached) the unsanitised fresh build is not what is driven here
     if not _asan_runtime():
         return Skip("ASan runtime not found")
     so = build_canneal(sanitize=True)
+    register_build_cleanup(so)
     calls = case["calls"]
     rc, out, err, to = _run_driver("api", so, calls, env_extra=_asan_env())
     bad = _classify(err, rc, to)
@@ -333,7 +335,7 @@ def _capture_raw(specs):
     """Run the specs through the real front ends in this process, recording the argument tuples that reach the C
     functions."""
     from . import _c17_driver as drv
-    q = import_qubovert(fresh_c=True)
+    q = fresh_qubovert()
     mod = q.sim._anneal
     raw = []
     real = (mod.c_anneal_quso, mod.c_anneal_puso)
